@@ -67,7 +67,9 @@ class Rig:
         path is returned in res['private'][id]) so that a hook can tamper with it during the run.
         hooks: list of (trigger(ctx)->bool, action(ctx)) run once from the signal thread."""
         """signals: list of (delay_seconds_after_spawn | callable(ctx)->bool trigger, signo).
-        Returns dict(rc, stderr, stdout, tap, log, junit, wall, dir, t0, t_end, sent)."""
+        supervise_stop: record [(monotonic time, "stopped" | "continued", signal)] for nextest itself, as seen
+        by its parent through waitid(WSTOPPED | WCONTINUED), in res["stops"].
+        Returns dict(rc, stderr, stdout, tap, log, junit, wall, dir, t0, t_end, sent, stops)."""
         with _lock:
             _counter[0] += 1
             d = os.path.join(RUNS, f"run-{os.getpid()}-{_counter[0]}")
@@ -140,8 +142,26 @@ class Rig:
                 except ProcessLookupError:
                     break
 
+        def supervise():
+            # the rig is nextest's parent: job-control state changes of nextest itself (it stops itself
+            # with SIGSTOP after forwarding SIGTSTP; the kernel continues it on SIGCONT) are reported to
+            # us by waitid(WSTOPPED | WCONTINUED). Without WEXITED the exit status is never consumed here,
+            # so Popen's own wait is unaffected.
+            kinds = {getattr(os, "CLD_STOPPED", 5): "stopped", getattr(os, "CLD_CONTINUED", 6): "continued"}
+            while p.returncode is None:
+                try:
+                    r = os.waitid(os.P_PID, p.pid, os.WSTOPPED | os.WCONTINUED | os.WNOHANG)
+                except (ChildProcessError, OSError):
+                    break
+                if r is not None and r.si_pid == p.pid and r.si_code in kinds:
+                    stops.append((time.monotonic(), kinds[r.si_code], r.si_status))
+                    continue
+                time.sleep(0.002)
+
         th = threading.Thread(target=deliver, daemon=True)
         th.start()
+        if supervise_stop:
+            threading.Thread(target=supervise, daemon=True).start()
         try:
             out, err = p.communicate(timeout=timeout)
             timed_out = False
@@ -155,7 +175,8 @@ class Rig:
         t_end = time.monotonic()
         res = dict(rc=p.returncode, stdout=out.decode(errors="replace"), stderr=err.decode(errors="replace"),
                    tap=read_jsonl(tap), log=read_jsonl(logp), wall=t_end - t0, dir=d, t0=t0, t_end=t_end,
-                   sent=sent, timed_out=timed_out, cmd=cmd, private=private, stderr_bytes=err, stdout_bytes=out)
+                   sent=sent, timed_out=timed_out, cmd=cmd, private=private, stderr_bytes=err, stdout_bytes=out,
+                   stops=list(stops) if supervise_stop else None)
         res["tap_all"] = read_jsonl(tap, with_received=True)   # emitted + received (hook H1b) in file order
         junit = os.path.join(PUPPET, "target", "nextest")
         res["junit_dir"] = junit
